@@ -237,6 +237,14 @@ func sortedSM(m map[string]*networking.StringMatch) []smEntry {
 	return out
 }
 
+func reversedSM(m map[string]*networking.StringMatch) []smEntry {
+	out := sortedSM(m)
+	for i, j := 0, len(out)-1; i < j; i, j = i+1, j-1 {
+		out[i], out[j] = out[j], out[i]
+	}
+	return out
+}
+
 func sortedKV(m map[string]string) []kv {
 	var out []kv
 	for k, v := range m {
@@ -282,7 +290,9 @@ func emitRule(o *wire.Out, h *networking.HTTPRoute) {
 	}
 	for _, m := range h.Match {
 		o.Line("match", wire.Enc(m.Name), encSM(m.Uri), encSM(m.Scheme), encSM(m.Method), encSM(m.Authority),
-			encSMMap(sortedSM(m.Headers)), encSMMap(sortedSM(m.WithoutHeaders)), encSMMap(sortedSM(m.QueryParams)),
+			// map entries are written in REVERSE key order: the implementation side rebuilds Go maps (no order),
+			// the model side must reproduce the emitted (sorted) order by its own sorts
+			encSMMap(reversedSM(m.Headers)), encSMMap(reversedSM(m.WithoutHeaders)), encSMMap(reversedSM(m.QueryParams)),
 			wire.B(m.IgnoreUriCase), strconv.Itoa(int(m.Port)), encPairs(sortedKV(m.SourceLabels)),
 			wire.Enc(m.SourceNamespace), wire.EncList(m.Gateways))
 	}
